@@ -415,6 +415,9 @@ func (e *Eng) eval(st *State, x ast.Expr) *Val {
 			return scalar(not(v.T), "Bool", t)
 		case token.SUB:
 			return scalar(e.wrap(t, "(- "+v.T+")"), "Int", t)
+		case token.ARROW:
+			// channel receive: the value received is unknown
+			return e.freshVal("recv", t)
 		case token.AND:
 			if cl, ok := x.X.(*ast.CompositeLit); ok {
 				return e.allocStruct(st, cl)
